@@ -7,5 +7,6 @@ ThreeSlots == <<"t1", "t2", "t3">>
 OpsCore    == {"add", "remove", "tryGet", "putOnCooldown"}
 OpsWait    == {"add", "remove", "next", "putOnCooldown"}
 OpsAll     == AllOps
+OpsNoRemove == {"add", "tryGet", "putOnCooldown"}
 OpsDeadlock == {"add", "putOnCooldown"}
 =============================================================================
